@@ -8,7 +8,7 @@
 (* selectors for "matches today / yesterday", fixed spans incl. wrapping ones).           *)
 EXTENDS DayEval
 
-CONSTANTS MaxRules, Ops, SpanShapes,
+CONSTANTS MaxRules, Ops, SpanShapes, DayPatterns,
           WrongBase      \* non-vacuity: take the FIRST matching normal rule as the base (must disagree)
 
 Today == DaysFromCivil(2024, 6, 4)           \* a Tuesday; yesterday is a Monday
@@ -17,7 +17,9 @@ NoCtx == [ph |-> {}, sh |-> {}, events |-> "default"]
 AllNth == <<TRUE, TRUE, TRUE, TRUE, TRUE>>
 Wd(a) == [t |-> "fixed", a |-> a, b |-> a, days |-> 0, nth |-> AllNth, nthr |-> AllNth]
 \* day patterns: Monday only (yesterday), Tuesday only (today), both, neither
-DayPatterns == {<<Wd(0)>>, <<Wd(1)>>, <<Wd(0), Wd(1)>>, <<Wd(2)>>}
+PatternsStd == {<<Wd(0)>>, <<Wd(1)>>, <<Wd(0), Wd(1)>>, <<Wd(2)>>}
+\* for the soundness of is_constant: rules without any day selector are what makes it answer TRUE
+PatternsConst == {<<>>, <<Wd(0)>>, <<Wd(1)>>}
 Fx(m) == [t |-> "fixed", m |-> m]
 Sp(s, e) == [s |-> Fx(s), e |-> Fx(e), open_end |-> FALSE, repeats |-> -1]
 Shape(k) == CASE k = 1 -> <<Sp(0, 720)>>            \* morning
@@ -56,14 +58,14 @@ Overlay(sch, i, hi) ==
   ELSE Overlay(IF Contribution(i).some THEN Addition(sch, Contribution(i).v) ELSE sch, i + 1, hi)
 
 MainSchedule == Overlay(IF BaseIdx = 0 THEN <<>> ELSE Contribution(BaseIdx).v, BaseIdx + 1, FirstFallback - 1)
-MainCovered  == (\E i \in Main : Contribution(i).match) /\ ~IsAlwaysClosed(MainSchedule)
+MainCovered  == ~IsAlwaysClosed(MainSchedule)      \* spills from yesterday cover the day too
 
 RECURSIVE Fallbacks(_, _, _)
 Fallbacks(sch, covered, i) ==
   IF i > Len(rs) THEN sch
   ELSE IF rs[i].op # "fallback" THEN Fallbacks(sch, covered, i + 1)     \* (only reached when it does not contribute)
   ELSE IF covered THEN sch
-  ELSE LET c == Contribution(i) IN Fallbacks(c.v, c.match /\ ~IsAlwaysClosed(c.v), i + 1)
+  ELSE LET c == Contribution(i) IN Fallbacks(c.v, ~IsAlwaysClosed(c.v), i + 1)
 
 DeclSchedule == Fallbacks(MainSchedule, MainCovered, FirstFallback)
 
@@ -75,6 +77,11 @@ Agree == Det(Expr, Today, NoCtx) => SamePaint(DaySchedule(Expr, Today, NoCtx), D
 FoldValid == LET v == DaySchedule(Expr, Today, NoCtx) IN Valid(v) /\ WithinDay(v) /\ IsTilingOf(Tiling(v), v)
 \* comments never come from elsewhere than the rules
 FoldComments == AllComments(DaySchedule(Expr, Today, NoCtx)) \subseteq {"c"}
+\* is_constant is sound: whenever the syntactic test says "constant", the fold paints the whole day
+\* with the last rule's kind - unconditionally (the code's iterator relies on it in every corner)
+ConstantSound == IsConstant(Expr) => ConstantDay(Expr, DayTiling(Expr, Today, NoCtx))
+\* ... and the test is not vacuous / not trivially FALSE: some 3-rule sequence with a fallback is constant
+ConstantNeverWithFallback == ~(IsConstant(Expr) /\ \E i \in DOMAIN rs : rs[i].op = "fallback")
 \* statistics: the determined share must not be empty (vacuity guard through a TLC counter)
 AllOps == {"normal", "additional", "fallback"}
 =============================================================================
